@@ -104,6 +104,9 @@ func (m *vUnwrapModel) step(raw RawType) (RawType, bool) {
 func vGenUnwrapInput(r *rand.Rand, n int, o vUnwrapOpts) []RawType {
 	out := make([]RawType, n)
 	kind := r.Intn(7)
+	if o.resetAft > 60000 {
+		kind = 7
+	}
 	q := 1 << 12
 	if o.drop > 0 {
 		q = 1 << o.fb // one quantum in raw units
@@ -122,6 +125,10 @@ func vGenUnwrapInput(r *rand.Rand, n int, o vUnwrapOpts) []RawType {
 		case 4: // constant
 		case 5: // uniform random
 			cur = r.Intn(65536)
+		case 7: // long reset intervals: one step that moves the offset away from home, then nothing for more than the interval
+			if i == 10 || i == 10+o.resetAft+200 || (i > 10 && i%(o.resetAft/3+1) == 5 && r.Intn(4) == 0) {
+				cur += vPick(r, 3*q/4, -3*q/4, q, -q)
+			}
 		case 6: // bursts: long excursions away from home then back (drives the reset counter to its boundary)
 			if r.Intn(o.resetAft+3) == 0 {
 				cur += vPick(r, q, -q, 3*q/4, -3*q/4)
@@ -173,6 +180,12 @@ func vRunC12(c *vCase) {
 	o.resetAft = vPick(r, 1, 2, 3, 7, 50, 20000)
 	o.invert = vChance(r, 0.3)
 	n := 50 + r.Intn(3000)
+	if c.Idx%40 == 7 {
+		// reset intervals beyond 16 bits, with sequences longer than the interval
+		o.resetAft = vPick(r, 65534, 65535, 65536, 70000, 131072)
+		n = 2*o.resetAft + 1000 + r.Intn(2000)
+		c.Cov("long_reset_intervals", 1)
+	}
 	in := vGenUnwrapInput(r, n, o)
 	c.Describe("C12 %+v n=%d first=%v", o, n, in[:4])
 	c.Distinct("opts", fmt.Sprintf("%d/%d/%v", o.fb, o.drop, o.enable))
@@ -524,7 +537,7 @@ func init() {
 		Run: vRunC12,
 		Meta: vMeta{
 			Level: "exploration",
-			Rule:  "case = option set (Abaco 16/4, Roach 14/2 or random fractionBits/drop, enable, bias, pulse sign, resetAfter 1..50/20000, inversion) x input sequence family (slow/fast walk, exact +-pi steps, wrap-heavy ramp, constant, uniform, excursions that drive the reset counter to its boundary) x random split into calls (incl. empty and 1-sample); oracle = congruence modulo the quantum, step bounds between resets, equality with an integer model of the statement, identical output for the split run",
+			Rule:  "case = option set (Abaco 16/4, Roach 14/2 or random fractionBits/drop, enable, bias, pulse sign, resetAfter 1..50/20000 and, in 1 case of 40, 65534..131072 with sequences of twice that length, inversion) x input sequence family (slow/fast walk, exact +-pi steps, wrap-heavy ramp, constant, uniform, excursions that drive the reset counter to its boundary) x random split into calls (incl. empty and 1-sample); oracle = congruence modulo the quantum, step bounds between resets, equality with an integer model of the statement, identical output for the split run",
 			Assumptions: []string{"the integer model is the property statement made executable (out = p + k*quantum, k changes by one when the input step leaves [bias-pi,bias+pi], returns home after more than resetAfter consecutive samples away); both interval ends are accepted"},
 			Guards: map[string]map[string]int{
 				"quick":    {"samples": 1000000, "resets": 1000, "samples_away_from_home": 100000, "calls": 50000},
